@@ -44,6 +44,11 @@ CONFIGS: Dict[str, Dict[str, Any]] = {
     # (the last 256 bytes of the window get their own ROM overlay, as in every full-ROM configuration, so that the recorded
     #  finding about internal memory living in the top of the external array does not show through the unbacked part)
     "shortrom": {"rom": True, "rom_len": 0x1000, "rom_overlay": [0xFFF00, [(i * 5 + 1) & 0xFF for i in range(256)]]},
+    # the whole machines, accessed by executed instructions (classes RsCpuBus / PyCpuBus below): the Rust runtime as the machine
+    # harness builds it (plain external array, a three-byte ROM overlay for the interrupt vector), the Python emulator with a full
+    # ROM image loaded
+    "cpu-rs": {"cpu": "rs", "rom_overlay": [0xFFFFA, [0x00, 0xA0, 0x0B]]},
+    "cpu-py": {"cpu": "py", "rom": True},
 }
 
 
@@ -179,6 +184,120 @@ class RsBus:
         self.vh.call("mem.store", addr=addr, bits=8 * w, value=v)
 
 
+# ------------------------------------------------------------------------------------------------ CPU-facing buses
+# The same load/store semantics seen from executed instructions: the bus a running CPU gets is not the bus object itself but
+# a layer in front of it (CoreRuntime::step's RuntimeBus splits keyboard / LCD / SIO / SSR accesses off and splits word accesses
+# around the keyboard registers; PCE500Emulator routes through the lifted IL and PCE500Memory with its perfetto / IMEM hooks).
+# Accesses to the 1 MiB external space are performed by MV A / MV BA / MVP (3 bytes through the internal memory) instructions
+# poked into RAM and stepped on the WHOLE machines; cells outside the reach of an instruction operand (wrap aliases, the
+# internal window) go to the machine's own bus object.
+CPU_CODE = 0xB9100
+CPU_SCRATCH = 0x40          # internal-memory offset used by the 3-byte moves (BP = 0)
+
+
+class RsCpuBus:
+    impl = "rscpu"
+
+    def __init__(self, vh: Vh, cfg):
+        self.vh = vh
+        self.supported = cfg.get("cpu") == "rs"
+        if self.supported:
+            vh.call("rt.new", name="cpu", cfg={"regs": {"PC": CPU_CODE, "S": 0xBFF00, "U": 0xBFE00}, "rom_overlays": [cfg["rom_overlay"]],
+                                               "timer": {"enabled": False, "pm": 0, "ps": 0}})
+            vh.call("rt.imem", name="cpu", off=0xEC, v=0)
+
+    def _run(self, code, regs=None):
+        self.vh.call("rt.configure", name="cpu", cfg={"regs": dict({"PC": CPU_CODE}, **(regs or {}))})
+        self.vh.call("rt.poke", name="cpu", addr=CPU_CODE, bytes=code)
+        r = self.vh.call("rt.step", name="cpu", n=1)
+        if r.get("err"):
+            raise MachineryError(f"CPU-facing access failed: {r['err']}")
+
+    def _obj_load(self, addr, w):
+        v = self.vh.call("rt.load", name="cpu", addr=addr, bits=8 * w)["value"]
+        return -1 if v is None else int(v)
+
+    def load(self, addr, w):
+        if not (0 <= addr and addr + w <= 0x100000):
+            return self._obj_load(addr, w)
+        a3 = [addr & 0xFF, (addr >> 8) & 0xFF, (addr >> 16) & 0x0F]
+        if w == 1:
+            self._run([0x88] + a3, {"BA": 0})
+            return self.vh.call("rt.obs", name="cpu")["ba"] & 0xFF
+        if w == 2:
+            self._run([0x8A] + a3, {"BA": 0})
+            return self.vh.call("rt.obs", name="cpu")["ba"] & 0xFFFF
+        self._run([0xD2, CPU_SCRATCH] + a3)
+        return self._obj_load(0x100000 + CPU_SCRATCH, 3)
+
+    def store(self, addr, w, v):
+        if not (0 <= addr and addr + w <= 0x100000):
+            self.vh.call("rt.store", name="cpu", addr=addr, bits=8 * w, value=v)
+            return
+        a3 = [addr & 0xFF, (addr >> 8) & 0xFF, (addr >> 16) & 0x0F]
+        if w == 1:
+            self._run([0xA8] + a3, {"BA": v & 0xFF})
+        elif w == 2:
+            self._run([0xAA] + a3, {"BA": v & 0xFFFF})
+        else:
+            for i in range(3):
+                self.vh.call("rt.imem", name="cpu", off=CPU_SCRATCH + i, v=(v >> (8 * i)) & 0xFF)
+            self._run([0xDA] + a3 + [CPU_SCRATCH])
+
+
+class PyCpuBus:
+    impl = "pycpu"
+
+    def __init__(self, cfg):
+        self.supported = cfg.get("cpu") == "py"
+        if not self.supported:
+            return
+        sys.path.insert(0, str(vlib.VERIF / "harness" / "py"))
+        import machine_harness as mh
+        from sc62015.pysc62015.emulator import RegisterName
+        self.R = RegisterName
+        self.pm = mh.PyMachine()
+        self.emu = self.pm.emu
+        self.m = self.emu.memory
+        self.m.write_byte(0x100000 + 0xEC, 0)
+
+    def _run(self, code, ba=None):
+        r = self.emu.cpu.regs
+        r.set(self.R.PC, CPU_CODE)
+        if ba is not None:
+            r.set(self.R.BA, ba)
+        for i, b in enumerate(code):
+            self.m.write_byte(CPU_CODE + i, b)
+        self.emu.step()
+
+    def load(self, addr, w):
+        if not (0 <= addr and addr + w <= 0x100000):
+            return int(self.m.read_bytes(addr, w))
+        a3 = [addr & 0xFF, (addr >> 8) & 0xFF, (addr >> 16) & 0x0F]
+        if w == 1:
+            self._run([0x88] + a3, 0)
+            return self.emu.cpu.regs.get(self.R.BA) & 0xFF
+        if w == 2:
+            self._run([0x8A] + a3, 0)
+            return self.emu.cpu.regs.get(self.R.BA) & 0xFFFF
+        self._run([0xD2, CPU_SCRATCH] + a3)
+        return int(self.m.read_bytes(0x100000 + CPU_SCRATCH, 3))
+
+    def store(self, addr, w, v):
+        if not (0 <= addr and addr + w <= 0x100000):
+            self.m.write_bytes(w, addr, v)
+            return
+        a3 = [addr & 0xFF, (addr >> 8) & 0xFF, (addr >> 16) & 0x0F]
+        if w == 1:
+            self._run([0xA8] + a3, v & 0xFF)
+        elif w == 2:
+            self._run([0xAA] + a3, v & 0xFFFF)
+        else:
+            for i in range(3):
+                self.m.write_byte(0x100000 + CPU_SCRATCH + i, (v >> (8 * i)) & 0xFF)
+            self._run([0xDA] + a3 + [CPU_SCRATCH])
+
+
 def probe(bus, cells: List[int]):
     """W[b] = cells whose byte changes when a marker is stored through cell b (then restored)."""
     W = []
@@ -233,12 +352,12 @@ def drive_shard(shard_id, items, extra):
     try:
         for (cfgname, seed, length) in items:
             cfg = CONFIGS[cfgname]
-            for impl in ("py", "rs"):
-                bus = PyBus(cfg) if impl == "py" else RsBus(vh, cfg)
+            for impl in (("rscpu", "pycpu") if "cpu" in cfg else ("py", "rs")):
+                bus = PyBus(cfg) if impl == "py" else RsBus(vh, cfg) if impl == "rs" else RsCpuBus(vh, cfg) if impl == "rscpu" else PyCpuBus(cfg)
                 if not bus.supported:
                     continue
                 tid += 1
-                tr = trace_for(bus, cfgname, cells, tid, random.Random(seed), length, allow_cross=(seed % 2 == 0))
+                tr = trace_for(bus, cfgname, cells, tid, random.Random(seed), length, allow_cross=(seed % 2 == 0 and "cpu" not in cfg))
                 crossing = [k for k, e in enumerate(tr) if e["ev"] in ("S", "L") and e["w"] > 1 and crosses(cfg, cells[e["c"] - 1], e["w"])]
                 meta[tid] = {"impl": impl, "cfg": cfgname, "seed": seed, "length": length, "start_line": len(events) + 1, "crossing": crossing}
                 events.extend(tr)
@@ -278,7 +397,7 @@ def run(cr: CheckRun) -> None:
     items = []
     per = 16 if quick else 120
     for cfgname in CONFIGS:
-        for k in range(per):
+        for k in range(per if "cpu" not in CONFIGS[cfgname] else max(4, per // 3)):
             items.append((cfgname, rnd.getrandbits(30), 300 if quick else 500))
     ntr, nev, bad = vlib.trace_campaign("C11", SD, "TraceMemory", "TraceMemory.cfg", items, drive_shard, "buses")
     for b, meta in bad:
